@@ -215,6 +215,77 @@ impl Response for f64 {""")], ["C04"]),
             }""", """            else {
                 node.command = Some(cmd)
             }""")], ["C14"]),
+    # ---- second batch (session 3): value-, shape- and history-dependent changes ----
+    ("r2-bool-any-nonzero-decimal", [(V, """            | Value::Decimal("1") => Ok(true),""", """            | Value::Decimal("1") => Ok(true),
+            Value::Decimal(d) if d.bytes().all(|b| b.is_ascii_digit()) && d.bytes().any(|b| b != b'0') => Ok(true),""")], ["C03"]),
+    ("r2-int-leading-zeros-stripped", [(V, """                    Value::Decimal(data) => {
+                        <$type>::from_str_radix(data, 10).or(Err(Error::NumericDataError))""", """                    Value::Decimal(data) => {
+                        let data = if data.len() > 1 { data.trim_start_matches('0') } else { data };
+                        <$type>::from_str_radix(data, 10).or(Err(Error::NumericDataError))""")], ["C03"]),
+    ("r2-negzero-loses-sign", [(R, """impl Response for f64 {
+    async fn write_response(&self, f: &mut impl Write) -> Result<(), Error> {
+        if self.is_nan() {""", """impl Response for f64 {
+    async fn write_response(&self, f: &mut impl Write) -> Result<(), Error> {
+        if *self == 0.0 {
+            f.write_char('0').await
+        }
+        else if self.is_nan() {""")], ["C04"]),
+    ("r2-slice-separator-every-8", [(R, """impl<T> Response for [T]
+where
+    T: Response,
+{
+    async fn write_response(&self, f: &mut impl Write) -> Result<(), Error> {
+        for (i, item) in self.iter().enumerate() {
+            if i > 0 {""", """impl<T> Response for [T]
+where
+    T: Response,
+{
+    async fn write_response(&self, f: &mut impl Write) -> Result<(), Error> {
+        for (i, item) in self.iter().enumerate() {
+            if i % 8 != 0 {""")], ["C04"]),
+    ("r2-tuple4-last-separator", [(R, """        self.2.write_response(f).await?;
+        f.write_char(',').await?;
+        self.3.write_response(f).await""", """        self.2.write_response(f).await?;
+        f.write_char(';').await?;
+        self.3.write_response(f).await""")], ["C04"]),
+    ("r2-exponent-plus-refused", [(P, """    let (i2, _) = optional(sign)(i1)?;
+    let (i3, _) = digits(i2)?;""", """    let (i2, _) = optional(tag(b'-'))(i1)?;
+    let (i3, _) = digits(i2)?;""")], ["C03"]),
+    ("r2-hex-lowercase-digits-refused", [(P, """    let (i3, _) = satisfy(|c| c.is_ascii_hexdigit())(i2)?;
+    let (i4, _) = take_while(|c| c.is_ascii_hexdigit())(i3)?;""", """    let (i3, _) = satisfy(|c| c.is_ascii_digit() || (b'A'..=b'F').contains(&c))(i2)?;
+    let (i4, _) = take_while(|c| c.is_ascii_digit() || (b'A'..=b'F').contains(&c))(i3)?;""")], ["C03"]),
+    ("r2-child-scan-first-16", [(T, "for child in self.children {", "for child in self.children.iter().take(16) {")], ["C01"]),
+    ("r2-ws-before-query-mark", [(P, """    let (input, query) = tag(b'?')(input)""", """    let (input, _) = optional(whitespace)(input)?;
+    let (input, query) = tag(b'?')(input)""")], ["C01"]),
+    ("r2-second-error-in-message-lost", [(I, """                if let Err(error) = self.execute(&call, response).await {
+                    #[cfg(feature = "defmt")]
+                    defmt::trace!("Execution error");
+                    self.handle_error(error);
+                }""", """                if let Err(error) = self.execute(&call, response).await {
+                    #[cfg(feature = "defmt")]
+                    defmt::trace!("Execution error");
+                    if header == self.root_node() || error != Error::UndefinedHeader {
+                        self.handle_error(error);
+                    }
+                }""")], ["C06"]),
+    ("r2-queue-full-same-error-kept", [(Q, """            if let Some(value) = self.0.back_mut() {
+                *value = Error::QueueOverflow;""", """            if let Some(value) = self.0.back_mut() {
+                if *value != error { *value = Error::QueueOverflow; }""")], ["C09"]),
+    ("r2-string-param-accepts-characters", [(V, """        match self {
+            Value::String(data) => Ok(data),""", """        match self {
+            Value::String(data) | Value::Characters(data) => Ok(data),""")], ["C03"]),
+    ("r2-u8-response-as-i8-above-200", [(R, """impl Response for u8 {
+    async fn write_response(&self, f: &mut impl Write) -> Result<(), Error> {
+        write!(f, "{self}").await""", """impl Response for u8 {
+    async fn write_response(&self, f: &mut impl Write) -> Result<(), Error> {
+        if *self > 250 { return write!(f, "{}", *self as i8).await; }
+        write!(f, "{self}").await""")], ["C04"]),
+    ("r2-crlf-cr-kept-in-last-string", [(P, """    let (i2, res) = take_while(|c| c != b'"')(i1)?;
+    let (i3, _) = tag(b'"')(i2)?;
+    let res = str::from_utf8(res)?;""", """    let (i2, res) = take_while(|c| c != b'"')(i1)?;
+    let (i3, _) = tag(b'"')(i2)?;
+    let res = str::from_utf8(res)?;
+    let res = if i3.first() == Some(&b'\\r') { res.trim_end_matches(' ') } else { res };""")], ["C08", "C11"]),
 ]
 
 
